@@ -280,3 +280,477 @@ Proof.
         rewrite (hack_list_nested l IH Hl). rewrite hack_copy1 by reflexivity. reflexivity.
       * apply hack_copy1. reflexivity.
 Qed.
+
+Lemma hack_list_top : forall l, safe_list l = true -> dot_hack (unparse l) = unparse (map rw_tok l).
+Proof.
+  unfold dot_hack. induction l as [|t r IH]; intros H; [reflexivity|].
+  cbn [safe_list] in H. apply andb_true_iff in H as [H H3]. apply andb_true_iff in H as [H1 H2].
+  cbn [unparse flat_map map]. fold (unparse r). fold (unparse (map rw_tok r)).
+  rewrite (hack_tok t true (unparse r) H1 H2). rewrite (IH H3). reflexivity.
+Qed.
+
+(* ---------------------------------------------------------------------------------------------------------- *)
+(* the format-string parser on unparsed trees *)
+
+Definition pre (a : text) (o : option (text * text)) : option (text * text) :=
+  match o with Some (sp, rest) => Some (a ++ sp, rest) | None => None end.
+
+Lemma pre_pre a b o : pre a (pre b o) = pre (a ++ b) o.
+Proof. destruct o as [[sp rest]|]; cbn [pre]; [rewrite app_assoc|]; reflexivity. Qed.
+
+Lemma pre_nil o : pre [] o = o.
+Proof. destruct o as [[sp rest]|]; reflexivity. Qed.
+
+Lemma scan_spec_plain1 c d tail : plain_char c = true -> scan_spec d (c :: tail) = pre [c] (scan_spec d tail).
+Proof.
+  unfold plain_char. intros H. bool_hyps. cbn [scan_spec]. rewrite H0, H. unfold pre.
+  destruct (scan_spec d tail) as [[sp rest]|]; reflexivity.
+Qed.
+
+Lemma scan_spec_plain : forall a d tail, forallb plain_char a = true -> scan_spec d (a ++ tail) = pre a (scan_spec d tail).
+Proof.
+  induction a as [|c a IH]; intros d tail H; cbn [app]; [rewrite pre_nil; reflexivity|].
+  cbn [forallb] in H. apply andb_true_iff in H as [H1 H2]. rewrite (scan_spec_plain1 c d _ H1). rewrite (IH d tail H2).
+  rewrite pre_pre. reflexivity.
+Qed.
+
+(* a name that the field-name scanner reads back whole *)
+Definition pname (n : text) : Prop :=
+  forallb plain_char n = true
+  /\ forall t r1, is_term t = true -> scan_name false (n ++ t :: r1) = Some (n, t, r1).
+Definition pconv (cv : option cp) : Prop := match cv with Some c => plain_char c = true | None => True end.
+
+Fixpoint pwf (top : bool) (t : tok) : Prop :=
+  match t with
+  | TChr c => plain_char c = true
+  | TEsc c => top = true /\ (c = c_lb \/ c = c_rb)
+  | TFld n cv sp =>
+      pname n /\ pconv cv /\
+      match sp with
+      | None => True
+      | Some l => (fix all (l : list tok) : Prop := match l with [] => True | x :: r => pwf false x /\ all r end) l
+      end
+  end.
+
+Fixpoint pwf_all (l : list tok) : Prop := match l with [] => True | x :: r => pwf false x /\ pwf_all r end.
+
+Lemma pwf_fld top n cv sp :
+  pwf top (TFld n cv sp) = (pname n /\ pconv cv /\ match sp with None => True | Some l => pwf_all l end).
+Proof. reflexivity. Qed.
+
+Definition sp_body (sp : option (list tok)) : text := match sp with Some l => unparse l | None => [] end.
+Definition item_of (t : tok) : item :=
+  match t with
+  | TChr c => Lit c
+  | TEsc c => Lit c
+  | TFld n cv sp => Fld n cv (sp_body sp) (has_c c_lb (sp_body sp))
+  end.
+
+Lemma conv_text_plain cv : pconv cv -> forallb plain_char (conv_text cv) = true.
+Proof. destruct cv as [c|]; cbn [pconv conv_text forallb]; [|reflexivity]. intros H. rewrite H. reflexivity. Qed.
+
+Definition scan_ok (t : tok) : Prop :=
+  pwf false t -> forall d tail, scan_spec d (unparse_tok t ++ tail) = pre (unparse_tok t) (scan_spec d tail).
+
+Lemma scan_spec_list : forall l, Forall scan_ok l -> pwf_all l ->
+  forall d tail, scan_spec d (unparse l ++ tail) = pre (unparse l) (scan_spec d tail).
+Proof.
+  induction l as [|t r IH]; intros HF Hw d tail; [cbn [unparse flat_map app]; rewrite pre_nil; reflexivity|].
+  inversion HF as [|? ? Ht Hr]; subst. destruct Hw as [W1 W2].
+  cbn [unparse flat_map]. fold (unparse r). rewrite <- app_assoc. rewrite (Ht W1). rewrite (IH Hr W2). rewrite pre_pre. reflexivity.
+Qed.
+
+Lemma scan_spec_tok : forall t, scan_ok t.
+Proof.
+  induction t as [c|c|n cv sp IH] using tok_ind'; intros Hw d tail.
+  - cbn [pwf] in Hw. cbn [unparse_tok app]. apply scan_spec_plain1. exact Hw.
+  - cbn [pwf] in Hw. destruct Hw as [Hw _]. discriminate.
+  - rewrite pwf_fld in Hw. destruct Hw as [[Hn _] [Hc Hl]].
+    rewrite unparse_fld. norm_app.
+    cbn [scan_spec]. change (N.eqb c_lb c_rb) with false. cbv iota. rewrite N.eqb_refl.
+    rewrite (scan_spec_plain n (S d) _ Hn). rewrite (scan_spec_plain (conv_text cv) (S d) _ (conv_text_plain cv Hc)).
+    assert (E : scan_spec (S d) (spec_text sp ++ c_rb :: tail) = pre (spec_text sp ++ [c_rb]) (scan_spec d tail)).
+    { destruct sp as [l|]; cbn [spec_text app].
+      - rewrite (scan_spec_plain1 c_colon) by reflexivity. cbn [opt_all] in IH.
+        rewrite (scan_spec_list l IH Hl). cbn [scan_spec]. rewrite N.eqb_refl. rewrite !pre_pre.
+        destruct (scan_spec d tail) as [[s0 r0]|]; cbn [pre]; [|reflexivity]. norm_app. reflexivity.
+      - cbn [scan_spec]. rewrite N.eqb_refl. destruct (scan_spec d tail) as [[s0 r0]|]; reflexivity. }
+    rewrite E. rewrite !pre_pre. destruct (scan_spec d tail) as [[s0 r0]|]; cbn [pre]; [|reflexivity]. norm_app. reflexivity.
+Qed.
+
+Lemma scan_spec_body l rest : pwf_all l -> scan_spec 0 (unparse l ++ c_rb :: rest) = Some (unparse l, rest).
+Proof.
+  intros Hw. rewrite (scan_spec_list l (proj2 (Forall_forall _ _) (fun t _ => scan_spec_tok t)) Hw).
+  cbn [scan_spec]. rewrite N.eqb_refl. cbn [pre]. rewrite app_nil_r. reflexivity.
+Qed.
+
+Lemma parse_skip : forall a b, parse_aux (length a) (a ++ b) = parse_aux 0 b.
+Proof. induction a as [|c a IH]; intros b; cbn [length app parse_aux]; [reflexivity|apply IH]. Qed.
+
+Lemma parse_open R c2 r' : R = c2 :: r' -> N.eqb c2 c_lb = false ->
+  parse_aux 0 (c_lb :: R) =
+  match parse_field R with None => [Bad] | Some (it, rest) => it :: parse_aux (length R - length rest) R end.
+Proof. intros -> H. cbn [parse_aux]. rewrite N.eqb_refl, H. reflexivity. Qed.
+
+Lemma parse_field_tok n cv sp rest : pname n -> pconv cv -> match sp with None => True | Some l => pwf_all l end ->
+  parse_field (n ++ conv_text cv ++ spec_text sp ++ c_rb :: rest) = Some (item_of (TFld n cv sp), rest).
+Proof.
+  intros [_ Hn] Hc Hl. unfold parse_field. cbn [item_of].
+  destruct cv as [c|]; cbn [conv_text app].
+  - rewrite (Hn c_bang _ eq_refl). change (N.eqb c_bang c_rb) with false. change (N.eqb c_bang c_colon) with false. cbv iota.
+    destruct sp as [l|]; cbn [spec_text app sp_body].
+    + change (N.eqb c_colon c_rb) with false. rewrite N.eqb_refl. cbv iota. unfold spec_item. rewrite (scan_spec_body l rest Hl). reflexivity.
+    + rewrite N.eqb_refl. reflexivity.
+  - destruct sp as [l|]; cbn [spec_text app sp_body].
+    + rewrite (Hn c_colon _ eq_refl). change (N.eqb c_colon c_rb) with false. rewrite N.eqb_refl. cbv iota.
+      unfold spec_item. rewrite (scan_spec_body l rest Hl). reflexivity.
+    + rewrite (Hn c_rb _ eq_refl). rewrite N.eqb_refl. reflexivity.
+Qed.
+
+Lemma first_not_lb n cv sp rest : forallb plain_char n = true ->
+  exists c2 r', n ++ conv_text cv ++ spec_text sp ++ c_rb :: rest = c2 :: r' /\ N.eqb c2 c_lb = false.
+Proof.
+  intros Hn. destruct n as [|c n'].
+  - destruct cv as [c|]; [eexists; eexists; split; [reflexivity|reflexivity]|].
+    destruct sp as [l|]; eexists; eexists; split; reflexivity.
+  - cbn [forallb] in Hn. apply andb_true_iff in Hn as [H _]. unfold plain_char in H. bool_hyps.
+    eexists; eexists; split; [reflexivity|assumption].
+Qed.
+
+Lemma parse_tok top t rest : pwf top t -> parse_aux 0 (unparse_tok t ++ rest) = item_of t :: parse_aux 0 rest.
+Proof.
+  destruct t as [c|c|n cv sp]; intros Hw.
+  - cbn [pwf] in Hw. unfold plain_char in Hw. bool_hyps. cbn [unparse_tok app parse_aux item_of]. rewrite H, H0. reflexivity.
+  - cbn [pwf] in Hw. destruct Hw as [_ [-> | ->]]; cbn [unparse_tok app parse_aux item_of].
+    + rewrite !N.eqb_refl. reflexivity.
+    + change (N.eqb c_rb c_lb) with false. rewrite !N.eqb_refl. reflexivity.
+  - rewrite pwf_fld in Hw. destruct Hw as [Hn [Hc Hl]]. rewrite unparse_fld. norm_app.
+    destruct (first_not_lb n cv sp rest (proj1 Hn)) as [c2 [r' [E Hc2]]].
+    rewrite (parse_open _ c2 r' E Hc2). rewrite (parse_field_tok n cv sp rest Hn Hc Hl). f_equal.
+    replace (n ++ conv_text cv ++ spec_text sp ++ c_rb :: rest) with ((n ++ conv_text cv ++ spec_text sp ++ [c_rb]) ++ rest)
+      by (norm_app; reflexivity).
+    rewrite app_length. replace (length (n ++ conv_text cv ++ spec_text sp ++ [c_rb]) + length rest - length rest)
+      with (length (n ++ conv_text cv ++ spec_text sp ++ [c_rb])) by lia.
+    apply parse_skip.
+Qed.
+
+Lemma parse_list top : forall l, Forall (pwf top) l -> parse_fmt (unparse l) = map item_of l.
+Proof.
+  unfold parse_fmt. induction l as [|t r IH]; intros H; [reflexivity|]. inversion H as [|? ? H1 H2]; subst.
+  cbn [unparse flat_map map]. fold (unparse r). rewrite (parse_tok top t _ H1). rewrite (IH H2). reflexivity.
+Qed.
+
+(* ---------------------------------------------------------------------------------------------------------- *)
+(* names *)
+
+Lemma name_plain n : forallb name_char n = true -> forallb plain_char n = true.
+Proof.
+  apply forallb_impl. intros c Hc. apply name_char_facts in Hc as [H1 [H2 _]]. unfold plain_char. rewrite H1, H2. reflexivity.
+Qed.
+
+Lemma scan_name_clean : forall n t r1, forallb name_char n = true -> is_term t = true ->
+  scan_name false (n ++ t :: r1) = Some (n, t, r1).
+Proof.
+  induction n as [|c n IH]; intros t r1 Hn Ht; cbn [app scan_name].
+  - rewrite Ht. unfold is_term in Ht. destruct (N.eqb t c_lb) eqn:E; [|reflexivity].
+    apply N.eqb_eq in E. subst t. discriminate Ht.
+  - cbn [forallb] in Hn. apply andb_true_iff in Hn as [Hc Hn]. apply name_char_facts in Hc as [H1 [H2 [H3 [H4 [H5 H6]]]]].
+    rewrite H1. unfold is_term. rewrite H2, H3, H4. cbn [orb]. rewrite H5. rewrite (IH t r1 Hn Ht). reflexivity.
+Qed.
+
+Lemma pname_clean n : forallb name_char n = true -> pname n.
+Proof. intros H. split; [apply name_plain; exact H|]. intros t r1 Ht. apply scan_name_clean; assumption. Qed.
+
+Lemma scan_name_true_step c r :
+  scan_name true (c :: r) =
+  match scan_name (negb (N.eqb c c_rsq)) r with Some (n, t, rest) => Some (c :: n, t, rest) | None => None end.
+Proof. reflexivity. Qed.
+
+Lemma scan_name_inbr : forall n t r1, forallb name_char n = true -> is_term t = true ->
+  scan_name true (n ++ c_rsq :: t :: r1) = Some (n ++ [c_rsq], t, r1).
+Proof.
+  induction n as [|c n IH]; intros t r1 Hn Ht; cbn [app]; rewrite scan_name_true_step.
+  - rewrite N.eqb_refl. cbn [negb]. pose proof (scan_name_clean [] t r1 eq_refl Ht) as E. cbn [app] in E. rewrite E. reflexivity.
+  - cbn [forallb] in Hn. apply andb_true_iff in Hn as [Hc Hn]. apply name_char_facts in Hc as [_ [_ [_ [_ [_ H6]]]]].
+    rewrite H6. cbn [negb]. rewrite (IH t r1 Hn Ht). reflexivity.
+Qed.
+
+Definition magic (n : text) : text := t_sqlfluff ++ c_lsq :: n ++ [c_rsq].
+
+Lemma pname_magic n : forallb name_char n = true -> pname (magic n).
+Proof.
+  intros H. split.
+  - unfold magic. rewrite forallb_app. cbn [forallb]. rewrite forallb_app. rewrite (name_plain n H). reflexivity.
+  - intros t r1 Ht. unfold magic. rewrite <- app_assoc. cbn [app]. rewrite <- app_assoc. cbn [app].
+    unfold t_sqlfluff. cbn [app scan_name].
+    repeat match goal with |- context [N.eqb ?a ?b] => change (N.eqb a b) with false; cbv iota end.
+    unfold is_term.
+    repeat match goal with |- context [N.eqb ?a ?b] => change (N.eqb a b) with false; cbv iota end.
+    cbn [orb]. change (N.eqb c_lsq c_lsq) with true. rewrite (scan_name_inbr n t r1 H Ht). reflexivity.
+Qed.
+
+Lemma safe_pwf : forall t top, safe_tok top t = true -> pwf top t /\ pwf top (rw_tok t).
+Proof.
+  induction t as [c|c|n cv sp IH] using tok_ind'; intros top Hs.
+  - cbn [safe_tok] in Hs. split; exact Hs.
+  - cbn [safe_tok] in Hs. apply andb_true_iff in Hs as [Ht Hc]. apply orb_true_iff in Hc.
+    assert (Hc' : c = c_lb \/ c = c_rb) by (destruct Hc as [Hc|Hc]; apply N.eqb_eq in Hc; tauto).
+    cbn [rw_tok pwf]. tauto.
+  - rewrite safe_fld in Hs. apply andb_true_iff in Hs as [Hn Hs]. cbn [rw_tok]. destruct (has_dot n) eqn:Hd.
+    + apply andb_true_iff in Hs as [_ Hs]. destruct cv as [cc|]; [discriminate|].
+      assert (Hl : match sp with None => True | Some l => pwf_all l end).
+      { destruct sp as [l|]; [|exact I]. apply andb_true_iff in Hs as [_ Hs]. clear IH.
+        induction l as [|x r IHl]; [exact I|]. cbn [forallb] in Hs. apply andb_true_iff in Hs as [H1 H2].
+        split; [|apply IHl; exact H2]. destruct x as [c|c|? ? ?]; try discriminate. cbn [spec_plain_tok] in H1.
+        apply andb_true_iff in H1 as [H1 _]. exact H1. }
+      rewrite !pwf_fld. split; (split; [|split; [exact I|exact Hl]]); [apply pname_clean|apply pname_magic]; exact Hn.
+    + apply andb_true_iff in Hs as [Hc Hl].
+      assert (Hc' : pconv cv).
+      { destruct cv as [c|]; [|exact I]. cbn [conv_ok] in Hc. unfold conv_char in Hc. bool_hyps. cbn [pconv]. unfold plain_char.
+        rewrite H, H2. reflexivity. }
+      rewrite !pwf_fld. destruct sp as [l|].
+      * cbn [opt_all] in IH.
+        assert (Hl' : pwf_all l /\ pwf_all (map rw_tok l)).
+        { induction l as [|x r IHl]; [split; exact I|]. inversion IH as [|? ? I1 I2]; subst.
+          cbn [all_nested] in Hl. apply andb_true_iff in Hl as [L1 L2]. destruct (I1 false L1) as [A1 A2].
+          destruct (IHl I2 L2) as [B1 B2]. cbn [map pwf_all]. tauto. }
+        split; (split; [apply pname_clean; exact Hn|split; [exact Hc'|tauto]]).
+      * split; (split; [apply pname_clean; exact Hn|split; [exact Hc'|exact I]]).
+Qed.
+
+Lemma safe_list_pwf : forall l, safe_list l = true -> Forall (pwf true) l /\ Forall (pwf true) (map rw_tok l).
+Proof.
+  induction l as [|t r IH]; intros H; [split; constructor|].
+  cbn [safe_list] in H. apply andb_true_iff in H as [H H3]. apply andb_true_iff in H as [H1 _].
+  destruct (safe_pwf t true H1) as [A B]. destruct (IH H3) as [C D]. cbn [map]. split; constructor; assumption.
+Qed.
+
+Lemma nested_pwf : forall l, all_nested l = true -> Forall (pwf false) l /\ Forall (pwf false) (map rw_tok l).
+Proof.
+  induction l as [|t r IH]; intros H; [split; constructor|].
+  cbn [all_nested] in H. apply andb_true_iff in H as [H1 H3].
+  destruct (safe_pwf t false H1) as [A B]. destruct (IH H3) as [C D]. cbn [map]. split; constructor; assumption.
+Qed.
+
+(* ---------------------------------------------------------------------------------------------------------- *)
+(* rendering *)
+
+Lemma unparse_rw_nolb : forall l, has_c c_lb (unparse l) = false -> map rw_tok l = l.
+Proof.
+  induction l as [|t r IH]; intros H; [reflexivity|]. cbn [unparse flat_map] in H. fold (unparse r) in H.
+  rewrite has_c_app in H. apply orb_false_iff in H as [H1 H2]. cbn [map]. rewrite (IH H2).
+  destruct t as [c|c|n cv sp]; [reflexivity|reflexivity|]. rewrite unparse_fld in H1. cbn [has_c existsb] in H1.
+  rewrite N.eqb_refl in H1. discriminate.
+Qed.
+
+Lemma unparse_rw_haslb : forall l, has_c c_lb (unparse (map rw_tok l)) = has_c c_lb (unparse l).
+Proof.
+  induction l as [|t r IH]; [reflexivity|]. cbn [map unparse flat_map]. fold (unparse r). fold (unparse (map rw_tok r)).
+  rewrite !has_c_app. rewrite IH. f_equal.
+  destruct t as [c|c|n cv sp]; [reflexivity|reflexivity|]. cbn [rw_tok]. destruct (has_dot n); rewrite !unparse_fld; cbn [has_c existsb];
+    rewrite N.eqb_refl; reflexivity.
+Qed.
+
+Section RenderP.
+  Variable val : Type.
+  Variable kw : text -> option val.
+  Variable getattr_ : val -> text -> res val.
+  Variable getitem_int : val -> N -> res val.
+  Variable getitem_str : val -> text -> res val.
+  Variable convert : cp -> val -> res val.
+  Variable fmt : val -> text -> res text.
+
+  Notation gf := (get_field val kw getattr_ getitem_int getitem_str).
+  Notation gfs := (get_field_spec val kw getattr_ getitem_int getitem_str).
+  Notation bld := (build val convert fmt).
+
+  Fixpoint render_items (g : text -> res val) (sub : text -> res text) (its : list item) : res text :=
+    match its with
+    | [] => Ok []
+    | Lit c :: r => do t <- render_items g sub r; Ok (c :: t)
+    | Bad :: _ => Err EValue
+    | Fld n cv sp ex :: r =>
+        do v <- g n;
+        do v' <- do_conv val convert cv v;
+        do sp' <- (if ex then sub sp else Ok sp);
+        do t <- fmt v' sp';
+        do t' <- render_items g sub r;
+        Ok (t ++ t')
+    end.
+
+  Lemma build_S g d s : bld g (S d) s = render_items g (bld g d) (parse_fmt s).
+  Proof.
+    cbn [build]. generalize (parse_fmt s). intros its. induction its as [|it r IH]; [reflexivity|].
+    destruct it as [c|n cv sp ex|]; cbn [render_items]; [rewrite IH; reflexivity| |reflexivity].
+    destruct (g n) as [v|e]; cbn [bind]; [|reflexivity].
+    destruct (do_conv val convert cv v) as [v'|e]; cbn [bind]; [|reflexivity].
+    destruct (if ex then bld g d sp else Ok sp) as [sp'|e]; cbn [bind]; [|reflexivity].
+    destruct (fmt v' sp') as [t|e]; cbn [bind]; [|reflexivity]. rewrite IH. reflexivity.
+  Qed.
+
+  Lemma walk_item : forall n acc v r, has_c c_rsq n = false ->
+    walk val getattr_ getitem_int getitem_str (WItem acc) v (n ++ c_rsq :: r) =
+    (do v' <- fin_item val getitem_int getitem_str v (rev n ++ acc); walk val getattr_ getitem_int getitem_str WSep v' r).
+  Proof.
+    induction n as [|c n IH]; intros acc v r H; cbn [app walk].
+    - rewrite N.eqb_refl. reflexivity.
+    - cbn [has_c existsb] in H. apply orb_false_iff in H as [H1 H2]. fold (has_c c_rsq n) in H2.
+      rewrite N.eqb_sym in H1. rewrite H1. rewrite (IH (c :: acc) v r H2). cbn [rev]. rewrite <- app_assoc. reflexivity.
+  Qed.
+
+  Lemma name_no_rsq n : forallb name_char n = true -> has_c c_rsq n = false /\ has_c c_lsq n = false.
+  Proof.
+    intros H. split; apply has_c_false_forall; revert H; apply forallb_impl; intros c Hc;
+      apply name_char_facts in Hc as [_ [_ [_ [_ [H5 H6]]]]]; rewrite N.eqb_sym; [rewrite H6|rewrite H5]; reflexivity.
+  Qed.
+
+  Lemma split_first_magic n : split_first (magic n) = (t_sqlfluff, c_lsq :: n ++ [c_rsq]).
+  Proof.
+    unfold magic, t_sqlfluff. reflexivity.
+  Qed.
+
+  (* the rewritten name is looked up as ONE key of the sqlfluff mapping *)
+  Lemma get_field_magic n : forallb name_char n = true -> has_dot n = true -> not_int n = true ->
+    gf (magic n) = gfs n.
+  Proof.
+    intros Hn Hd Hi. destruct (name_no_rsq n Hn) as [R1 R2].
+    unfold get_field_spec, dotted. rewrite Hd, R1, R2. cbn [negb andb].
+    unfold get_field. rewrite split_first_magic.
+    change (get_integer t_sqlfluff) with (@Ok (option N) None). cbn [bind]. unfold t_sqlfluff at 1.
+    destruct (kw t_sqlfluff) as [v|]; [|reflexivity].
+    cbn [walk]. change (N.eqb c_lsq c_dot) with false. rewrite N.eqb_refl. cbv iota.
+    replace (n ++ [c_rsq]) with (n ++ c_rsq :: []) by reflexivity. rewrite (walk_item n [] v [] R1). rewrite app_nil_r.
+    unfold fin_item. destruct (rev n) as [|c0 rn] eqn:Er.
+    - assert (n = []) by (rewrite <- (rev_involutive n), Er; reflexivity). subst n. discriminate Hd.
+    - rewrite <- Er. rewrite rev_involutive. unfold not_int in Hi.
+      destruct (get_integer n) as [[i|]|e]; try discriminate. cbn [bind walk].
+      destruct (getitem_str v n); reflexivity.
+  Qed.
+
+  Lemma get_field_nodot n : has_dot n = false -> gfs n = gf n.
+  Proof. intros H. unfold get_field_spec, dotted. rewrite H. reflexivity. Qed.
+
+  Definition render_ok (t : tok) : Prop :=
+    forall top, safe_tok top t = true ->
+    forall (sub1 sub2 : text -> res text) r1 r2,
+      (forall l, all_nested l = true -> sub1 (unparse (map rw_tok l)) = sub2 (unparse l)) ->
+      render_items gf sub1 r1 = render_items gfs sub2 r2 ->
+      render_items gf sub1 (item_of (rw_tok t) :: r1) = render_items gfs sub2 (item_of t :: r2).
+
+  Lemma render_tok : forall t, render_ok t.
+  Proof.
+    intros t top Hs sub1 sub2 r1 r2 Hsub Hr. destruct t as [c|c|n cv sp].
+    - cbn [rw_tok item_of render_items]. rewrite Hr. reflexivity.
+    - cbn [rw_tok item_of render_items]. rewrite Hr. reflexivity.
+    - rewrite safe_fld in Hs. apply andb_true_iff in Hs as [Hn Hs]. cbn [rw_tok]. destruct (has_dot n) eqn:Hd.
+      + apply andb_true_iff in Hs as [Hi Hs]. destruct cv as [cc|]; [discriminate|].
+        fold (magic n). cbn [item_of render_items]. rewrite (get_field_magic n Hn Hd Hi).
+        assert (E : has_c c_lb (sp_body sp) = false).
+        { destruct sp as [l|]; [|reflexivity]. apply andb_true_iff in Hs as [_ Hs]. apply spec_plain_chars in Hs as [Hs _].
+          cbn [sp_body]. apply has_c_false_forall. revert Hs. apply forallb_impl. intros x Hx. apply andb_true_iff in Hx as [Hx _].
+          unfold plain_char in Hx. bool_hyps. rewrite N.eqb_sym, H. reflexivity. }
+        rewrite E. rewrite Hr. reflexivity.
+      + apply andb_true_iff in Hs as [Hc Hl]. cbn [item_of render_items]. rewrite (get_field_nodot n Hd).
+        destruct (gf n) as [v|e]; cbn [bind]; [|reflexivity].
+        destruct (do_conv val convert cv v) as [v'|e]; cbn [bind]; [|reflexivity].
+        assert (E : (if has_c c_lb (sp_body (match sp with Some l => Some (map rw_tok l) | None => None end))
+                     then sub1 (sp_body (match sp with Some l => Some (map rw_tok l) | None => None end))
+                     else Ok (sp_body (match sp with Some l => Some (map rw_tok l) | None => None end)))
+                    = (if has_c c_lb (sp_body sp) then sub2 (sp_body sp) else Ok (sp_body sp))).
+        { destruct sp as [l|]; [|reflexivity]. cbn [sp_body]. rewrite unparse_rw_haslb.
+          destruct (has_c c_lb (unparse l)) eqn:El; [apply Hsub; exact Hl|]. rewrite (unparse_rw_nolb l El). reflexivity. }
+        rewrite E. destruct (if has_c c_lb (sp_body sp) then sub2 (sp_body sp) else Ok (sp_body sp)) as [sp'|e]; cbn [bind]; [|reflexivity].
+        destruct (fmt v' sp') as [t0|e]; cbn [bind]; [|reflexivity]. rewrite Hr. reflexivity.
+  Qed.
+
+  Lemma render_list : forall l top (sub1 sub2 : text -> res text),
+    Forall (fun t => safe_tok top t = true) l ->
+    (forall l', all_nested l' = true -> sub1 (unparse (map rw_tok l')) = sub2 (unparse l')) ->
+    render_items gf sub1 (map item_of (map rw_tok l)) = render_items gfs sub2 (map item_of l).
+  Proof.
+    induction l as [|t r IH]; intros top sub1 sub2 H Hsub; [reflexivity|]. inversion H as [|? ? H1 H2]; subst.
+    cbn [map]. apply (render_tok t top H1); [exact Hsub|]. apply (IH top); assumption.
+  Qed.
+
+  Lemma all_nested_forall l : all_nested l = true -> Forall (fun t => safe_tok false t = true) l.
+  Proof.
+    induction l as [|t r IH]; intros H; [constructor|]. cbn [all_nested] in H. apply andb_true_iff in H as [H1 H2].
+    constructor; [exact H1|apply IH; exact H2].
+  Qed.
+
+  Lemma safe_list_forall l : safe_list l = true -> Forall (fun t => safe_tok true t = true) l.
+  Proof.
+    induction l as [|t r IH]; intros H; [constructor|]. cbn [safe_list] in H. apply andb_true_iff in H as [H H3].
+    apply andb_true_iff in H as [H1 _]. constructor; [exact H1|apply IH; exact H3].
+  Qed.
+
+  (* nested specs, any recursion depth *)
+  Lemma build_nested : forall d l, all_nested l = true -> bld gf d (unparse (map rw_tok l)) = bld gfs d (unparse l).
+  Proof.
+    induction d as [|d IH]; intros l H; [reflexivity|]. rewrite !build_S.
+    destruct (nested_pwf l H) as [W1 W2]. rewrite (parse_list false _ W1), (parse_list false _ W2).
+    apply (render_list l false); [apply all_nested_forall; exact H|]. intros l' H'. apply IH. exact H'.
+  Qed.
+
+  Lemma build_top : forall d l, safe_list l = true -> bld gf d (unparse (map rw_tok l)) = bld gfs d (unparse l).
+  Proof.
+    intros [|d] l H; [reflexivity|]. rewrite !build_S.
+    destruct (safe_list_pwf l H) as [W1 W2]. rewrite (parse_list true _ W1), (parse_list true _ W2).
+    apply (render_list l true); [apply safe_list_forall; exact H|]. intros l' H'. apply build_nested. exact H'.
+  Qed.
+
+  Theorem dot_hack_correct_lemma : forall l, safe_list l = true ->
+    py_render val kw getattr_ getitem_int getitem_str convert fmt (unparse l)
+    = spec_process val kw getattr_ getitem_int getitem_str convert fmt (unparse l).
+  Proof.
+    intros l H. unfold py_render, spec_process, py_format, spec_render. rewrite (hack_list_top l H).
+    rewrite (build_top 2 l H). reflexivity.
+  Qed.
+End RenderP.
+
+(* ---------------------------------------------------------------------------------------------------------- *)
+(* "every valid format string renders" on the proved fragment *)
+Lemma valid_renders_lemma : forall (val : Type) kw getattr_ getitem_int getitem_str convert fmt (l : list tok) (out : text),
+  safe_list l = true ->
+  spec_process val kw getattr_ getitem_int getitem_str convert fmt (unparse l) = Ok out ->
+  py_render val kw getattr_ getitem_int getitem_str convert fmt (unparse l) = Ok out.
+Proof. intros. rewrite dot_hack_correct_lemma by assumption. assumption. Qed.
+
+(* ---------------------------------------------------------------------------------------------------------- *)
+(* witnesses: outside that fragment the rewrite is wrong.  Context: sqlfluff = {"a.b": "zz", "x.y": "w"}, a = "A"
+   (value 0 = the mapping, 1 = "zz", 2 = "w", 3 = "A", 4 = repr("zz")); every needed oracle answer is in the table. *)
+Definition w_tab : otab :=
+  mkOtab [(t_sqlfluff, 0); ([97]%N, 3)]
+         [(3, [98]%N, Err ERuntime)]                                  (* "A".b -> AttributeError *)
+         []
+         [(0, [97; 46; 98]%N, Ok 1); (0, [120; 46; 121]%N, Ok 2);
+          (0, [123; 32; 123; 97; 46; 98]%N, Err EKey); (0, [97; 46; 98; 33; 114]%N, Err EKey)]
+         [(114%N, 1, Ok 4)]
+         [(1, [], Ok [122; 122]%N); (2, [], Ok [119]%N); (4, [], Ok [39; 122; 122; 39]%N);
+          (1, [32; 62; 52]%N, Ok [32; 32; 122; 122]%N); (1, [62; 52]%N, Ok [32; 32; 122; 122]%N)].
+
+(* "{{ {a.b}" : valid, renders "{ zz"; the regex matches at the escaped brace *)
+Definition w_escaped : text := [123; 123; 32; 123; 97; 46; 98; 125]%N.
+Lemma refuted_escaped :
+  t_spec w_tab w_escaped = Ok [123; 32; 122; 122]%N /\ t_render w_tab w_escaped = Err ETemplater
+  /\ dot_hack w_escaped = [123%N] ++ t_sqlfluff ++ [91; 123; 32; 123; 97; 46; 98; 93; 125]%N.
+Proof. vm_compute. repeat split; reflexivity. Qed.
+
+(* "{a.b!r}" : the conversion is captured into the key *)
+Definition w_conversion : text := [123; 97; 46; 98; 33; 114; 125]%N.
+Lemma refuted_conversion :
+  t_spec w_tab w_conversion = Ok [39; 122; 122; 39]%N /\ t_render w_tab w_conversion = Err ETemplater.
+Proof. vm_compute. split; reflexivity. Qed.
+
+(* "{a.b: >4}" : a spec with a space is not matched at all; str.format then evaluates "A".b (AttributeError, uncaught) *)
+Definition w_spec_space : text := [123; 97; 46; 98; 58; 32; 62; 52; 125]%N.
+Lemma refuted_spec_space :
+  t_spec w_tab w_spec_space = Ok [32; 32; 122; 122]%N /\ t_render w_tab w_spec_space = Err ERuntime
+  /\ dot_hack w_spec_space = w_spec_space.
+Proof. vm_compute. repeat split; reflexivity. Qed.
+
+(* "{a.b:>4}{x.y}" : group 2 runs to the last close brace and swallows the next dotted field *)
+Definition w_adjacent : text := [123; 97; 46; 98; 58; 62; 52; 125; 123; 120; 46; 121; 125]%N.
+Lemma refuted_adjacent :
+  t_spec w_tab w_adjacent = Ok [32; 32; 122; 122; 119]%N /\ exists e, t_render w_tab w_adjacent = Err e.
+Proof. vm_compute. split; [reflexivity|eexists; reflexivity]. Qed.
